@@ -252,6 +252,9 @@ func Tokenize(pw string, ti Indices, entropy float32) (Password, error) {
 		return p, nil
 
 	case FullIndexKind:
+		if len(ti)%2 != 1 {
+			return p, fmt.Errorf("full token index is truncated (odd number of length/type bytes)")
+		}
 		tokens := make([]Token, len(ti)/2)
 
 		prevPos := 0
